@@ -158,7 +158,7 @@ def run(chk, binary):
     known_cases = store["deviations"]          # class -> list of case keys that deviate on the repaired tree
     known_classes = {k["class"].strip('"'): k["_line"].split(k["class"], 1)[1].strip() for k in known_findings() if k.get("property") == "C02"}
     dist = {"exhaustive_small_scope": 0, "sampled_small_scope": 0, "realistic": 0, "operators_vs_vim": 0, "motion_model_cases": 0, "agree": 0, "known_case": 0, "known_class": 0,
-            "ghost_line": 0, "vim_error": 0, "fixed_since_recorded": 0}
+            "ghost_line": 0, "vim_error": 0, "fixed_since_recorded": 0, "vertical_column_sequences": 0}
     # ---- family A0: exhaustive over texts up to length 2 (3 on thorough) x every cursor x every command ----
     cases = []
     for t in small_texts(3 if thorough else 2):
@@ -248,6 +248,15 @@ def run(chk, binary):
                 keys_.append("p" if put[0] else "P")
                 cls += " then " + ("p" if put[0] else "P")
         cases.append({"text": flat + "\n", "cursor": rng_o.choice(cursors(flat)), "keys": keys_, "cls": cls, "family": "OP", "classes": [cls], "opcase": (op, mk, n, flat), "put": put, "obj": obj, "vm": vm, "cs": cs})
+    # ---- family V: the column j / k aim for: set by a vertical move that was clipped on a shorter line, then a linewise
+    # or in-place command, then another vertical move (a fixed sequence, like A and B) ----
+    rng_v = random.Random(1004)
+    RAGGED = ["abcdef\nab\nxy\nabcdefgh\n", "one two three\nx\n\nfour five six\nz\n", "  indented\nab\n    more indented\nq\n", "abcdefgh\nabcd\nab\nabcdefgh"]
+    for _ in range(2400 if thorough else 400):
+        t = rng_v.choice(RAGGED)
+        mid = rng_v.choice(["yy", "dd", "Y", "yj", ">>", "x", "rZ", "~", "yiw", "J", "2yy", "p", "ddP"])
+        ks = [rng_v.choice(["4l", "6l", "$", "2l", "w"]), rng_v.choice(["j", "k", "2j", "j"]), mid, rng_v.choice(["j", "k", "j", "2k"])]
+        cases.append({"text": t, "cursor": rng_v.choice([0, 0, t.index("\n") + 1]), "keys": ks, "cls": f"vertical move, {mid}, vertical move", "family": "V", "classes": [f"vertical move, {mid}, vertical move"]})
     vim = VR.run_vim(cases)
     ans = server_map(binary, [{"op": "keys", "text": c["text"], "cursor": c["cursor"], "keys": ["".join(c["keys"])], "last_only": True} for c in cases])
     # the operator model against Vim: no tolerance
@@ -324,7 +333,7 @@ def run(chk, binary):
     unknown = {}
     for idx, (c, v, a) in enumerate(zip(cases, vim, ans)):
         fam = c["family"]
-        dist["exhaustive_small_scope" if fam == "A0" else ("sampled_small_scope" if fam == "A" else "operators_vs_vim" if fam == "OP" else "realistic")] += 1
+        dist["exhaustive_small_scope" if fam == "A0" else ("sampled_small_scope" if fam == "A" else "operators_vs_vim" if fam == "OP" else "vertical_column_sequences" if fam == "V" else "realistic")] += 1
         chk.count(("c02", c["text"], c["cursor"], tuple(c["keys"])), nontrivial=True)
         if v is None or v["err"]:
             dist["vim_error"] += 1
